@@ -239,6 +239,7 @@ PROPS = {
         pkg="c15", level="exploration",
         tests=[T("TestC15", Q(20000), Q(100000, timeout=900, shards=8)),
                T("TestC15Exhaustive", Q(0, timeout=300), Q(0, timeout=2400)),
+               T("TestC15Cluster", Q(400, timeout=300, shrinktime="20s"), Q(4000, timeout=900, shards=4, shrinktime="60s")),
                T("TestC15Worker", Q(2, timeout=300, shards=2, shrinktime="10s"), Q(12, timeout=900, shards=8, shrinktime="30s"))],
         rule="2-3 real table.Manager instances (distinct node ids) over one gated metadata store backed by the real kv.LFSM (real compare-and-set rule); each runs a generated program of 1-4 calls LeaseTable(+1h) / "
              "LeaseTable(-1h, already expired) / ReturnTable; a rapid-drawn schedule releases ONE parked store read/write at a time, so interleavings are at the granularity of individual metadata-store operations and executions are "
@@ -258,13 +259,16 @@ PROPS = {
                T("TestC14Odd", Q(10, timeout=200, shrinktime="10s"), Q(60, timeout=600, shards=2, shrinktime="30s")),
                T("TestC14Race", Q(10000), Q(100000, timeout=900, shards=4)),
                T("TestC14RaceExhaustive", Q(0, timeout=300), Q(0, timeout=1200)),
+               T("TestC14Cluster", Q(300, timeout=300, shrinktime="20s"), Q(3000, timeout=900, shards=4, shrinktime="60s")),
                T("TestC14Diff", Q(30000), Q(200000, timeout=900, shards=2))],
         rule="TestC14: a fresh real engine per case; 3-20 actions over names {a,b,c}: create, delete, restore (generated 0-4 record stream through Manager.Restore), list, get, put, range, reconcile. Oracle: create succeeds iff the name is absent "
              "(sequentially: always then), every assigned id (create and restore) > all earlier ids, delete iff exists, list/get == model catalogue (name:id), new and re-created tables are empty, a put on one table never changes another, "
              "after VerifReconcile the NodeHost's running table shards == catalogued ids. Non-trivial iff a name that held data was deleted and re-created, or a restore happened between creates. "
              "TestC14Odd: same with names that look like metadata paths / globs (x/y, a/lease, sys/idseq, *, [a]); failures after such an action are attributed to the listed name-collision finding. "
              "TestC14Race: 2-3 real Managers over one gated LFSM store racing VerifCreateRecord / DeleteTable (1-3 calls each) under rapid-drawn schedules at store-operation granularity; oracle: ids never reused, never two successful creates of a live name, "
-             "store catalogue only holds acknowledged tables (non-trivial iff two creators both passed the existence check before either wrote); in a third of the cases two writes parked at the same time are applied by ONE Update call of the metadata state machine. TestC14RaceExhaustive: ALL schedules (each exactly once, DFS over the scheduler's choice points; ~10^5) of two managers running every pair of programs of up to 2 calls over {create a, create b, delete a}, without and with batched application. TestC14Diff: diffTables on generated catalogue (ids incl. 0, <=10000, recover ids) x running-shard sets; "
+             "store catalogue only holds acknowledged tables (non-trivial iff two creators both passed the existence check before either wrote); in a third of the cases two writes parked at the same time are applied by ONE Update call of the metadata state machine. TestC14RaceExhaustive: ALL schedules (each exactly once, DFS over the scheduler's choice points; ~10^5) of two managers running every pair of programs of up to 2 calls over {create a, create b, delete a}, without and with batched application. TestC14Cluster: the same rules on a REAL 3-node cluster in one process (real kv.RaftStore proposals, real raft batching, stale local catalogue reads): 2-5 rounds of CreateTable / DeleteTable over two names issued concurrently, one call per node; "
+             "every assigned id unique and greater than the id of every create that had finished before this one started; per round and name the outcomes must be explained by some sequential order of the calls (a call may have failed without effect; two racing deletes of one existing table may both succeed); "
+             "afterwards every node's lookup converges to what that order leaves (non-trivial iff >=2 calls raced on one name). TestC14Diff: diffTables on generated catalogue (ids incl. 0, <=10000, recover ids) x running-shard sets; "
              "oracle: start == catalogued minus running, stop == running minus catalogued, ids > 10000 only (non-trivial iff both sets non-empty). Distinct = sha256 of case JSON.",
         assumptions=["single-node engine for the sequential part; concurrency is explored on the gated store only", "table names with '/' or glob syntax are a listed known finding"],
         technique="stateful model-based property testing on a real engine + schedule exploration on a gated store + pure-function property test of the reconcile diff",
